@@ -26,7 +26,7 @@ RUN_TIMEOUT_S = 90.0
 MIN_BUDGET = 200
 
 TIERS = {
-    'quick': {'runs': 20000, 'classes': 8, 'budget_s': 80},
+    'quick': {'runs': 20000, 'classes': 8, 'budget_s': 60},
     'thorough': {'runs': 200000, 'classes': 32, 'budget_s': 1100},
 }
 
@@ -108,6 +108,10 @@ def gen_case(streams, tier):
     cfg['default'] = 0
     if not rom and not covering and set(labels) <= {'sim', 'fast'} and g.random() < 0.4:
         cfg['default'] = g.choice([1, 1, mask(cfg['bw'])])
+        if cfg.get('variant') == 'registered':
+            # must also fit the 1-bit and address-wide port registers; with two ports both
+            # would start enabled at one address (an undefined double write)
+            cfg['default'] = 1 if cfg['W'] == 1 else 0
     case = {'prop': ID, 'cfg': cfg, 'labels': labels, 'tape': tape, 'faults': faults,
             'covering': covering, 'sched': world.gen_sched(streams)}
     case['interleave'] = replica.gen_interleaving(streams['sched'], labels, len(tape),
@@ -232,6 +236,12 @@ class Model(object):
         self.rom = rom_func(cfg['rom'], cfg['bw']) if cfg['rom'] else None
         self.mem = {int(a): v for a, v in cfg['init'].items()}
         self.prev = None
+        dv = cfg.get('default', 0)
+        if cfg.get('variant') == 'registered' and dv:
+            # port registers without reset value start at default_value
+            self.prev = {}
+            for w in range(cfg['W']):
+                self.prev.update({'wa%d' % w: dv, 'wd%d' % w: dv, 'we%d' % w: dv})
 
     def step(self, cyc):
         out = {}
